@@ -202,6 +202,7 @@ def cfgOfJson (j : Json) : Cfg :=
   { suggestCatchesAll := b "suggestCatchesAll" true, shortDeliveryOk := b "shortDeliveryOk" true,
     deleteCascadesOps := b "deleteCascadesOps" true, metadataAtomic := b "metadataAtomic" true,
     esRecycle := b "esRecycle" true, esFailureFinishesOp := b "esFailureFinishesOp" true,
-    createKeepsInfeasible := b "createKeepsInfeasible" true }
+    createKeepsInfeasible := b "createKeepsInfeasible" true,
+    esAnswerFinishesOp := b "esAnswerFinishesOp" true }
 
 end VizierModel.Driver.SvcJson
